@@ -28,15 +28,27 @@ class NumbaShim:
     jit = njit
 
 
-_ast_cache = {}
+_ast_cache = {}      # path -> {function name: [FunctionDef nodes]}   (filled once per run from the current source text)
+_code_cache = {}     # path -> (source text, code object)
+
+
+def _load_source(path):
+    if path not in _code_cache:
+        src = open(path).read()
+        _code_cache[path] = (src, compile(src, path, 'exec'))
+        idx = {}
+        for n in ast.walk(ast.parse(src)):
+            if isinstance(n, ast.FunctionDef):
+                idx.setdefault(n.name, []).append(n)
+        _ast_cache[path] = idx
+    return _code_cache[path]
 
 
 def make_kernel(fn, interp):
     path = fn.__code__.co_filename
-    if path not in _ast_cache:
-        _ast_cache[path] = ast.parse(open(path).read())
-    cands = [n for n in ast.walk(_ast_cache[path]) if isinstance(n, ast.FunctionDef) and n.name == fn.__name__
-             and (n.decorator_list[0].lineno if n.decorator_list else n.lineno) <= fn.__code__.co_firstlineno <= n.lineno]
+    _load_source(path)
+    cands = [n for n in _ast_cache[path].get(fn.__name__, [])
+             if (n.decorator_list[0].lineno if n.decorator_list else n.lineno) <= fn.__code__.co_firstlineno <= n.lineno]
     if len(cands) != 1:
         raise RuntimeError('cannot locate the AST of kernel %s (%d candidates)' % (fn.__name__, len(cands)))
     return _interp.Kernel(fn.__name__, cands[0], fn.__globals__, fn, interp)
@@ -85,9 +97,9 @@ class Package:
         m.__dict__['__builtins__'] = b
         m.__dict__['__file__'] = path
         m.__dict__['__package__'] = self.pkg
-        src = open(path).read()
+        src, code = _load_source(path)
         self.sources[sub] = src
-        exec(compile(src, path, 'exec'), m.__dict__)
+        exec(code, m.__dict__)
         return m
 
     def kernel(self, name):
